@@ -7,6 +7,15 @@ import itertools
 import struct
 import time
 
+def _gmtime(secs):
+    """time.gmtime() computed with plain arithmetic (the C library's gmtime
+    counts leap seconds under a "right/" TZ setting)."""
+    import datetime as _dt
+    import time as _t
+    d = _dt.datetime(1970, 1, 1) + _dt.timedelta(seconds=int(secs))
+    return _t.struct_time(d.timetuple()[:8] + (0,))
+
+
 D = decimal.Decimal
 UTC = datetime.timezone.utc
 EPOCH = datetime.datetime(1970, 1, 1, tzinfo=UTC)
@@ -151,9 +160,12 @@ def rkey(rnd):
 
 
 def rfloat(rnd):
-    """Float in the C03 domain: single-precision rounding is finite, or the
-    value is +-inf / nan."""
+    """Any float: single-precision range (rounded on the wire), +-inf, nan,
+    and finite doubles beyond the single-precision range."""
     k = rnd.random()
+    if k < 0.06:
+        return rnd.choice([1e39, -1e39, 3.5e38, 1e300, -1e300,
+                           1.7976931348623157e308, 3.4028235677973366e38])
     if k < 0.25:
         return rnd.choice([0.0, -0.0, 1.0, -1.0, 0.1, 1e-45, -1e-45,
                            1.401298464324817e-45, 1.1754943508222875e-38,
@@ -163,10 +175,7 @@ def rfloat(rnd):
     if k < 0.6:
         bits = rnd.getrandbits(32)
         return struct.unpack('>f', struct.pack('>I', bits))[0]
-    x = rnd.uniform(-1, 1) * 10 ** rnd.randint(-40, 38)
-    if abs(x) > 3.4028234663852886e38:
-        x = 3.4028234663852886e38 if x > 0 else -3.4028234663852886e38
-    return x
+    return rnd.uniform(-1, 1) * 10 ** rnd.randint(-40, 40)
 
 
 SCALES = [0, 1, 2, 5, 6, 7, 8, 9, 10, 28, 29, 100, 254, 255]
@@ -225,7 +234,7 @@ def rdatetime(rnd, secs=None):
                 [1, -1, 3599, 37])))
             dt = base.astimezone(tz2)
         return dt
-    t = time.gmtime(s)
+    t = _gmtime(s)
     k = rnd.random()
     if k < 0.4:
         return t
